@@ -81,7 +81,20 @@ func Gen(caseID, tier string) (json.RawMessage, error) {
 	nt := r.PickInt(2, 2, 3, 4, 6, 8, 12, 16)
 	pool := r.Range(1, 5)
 	modes := []string{"min", "fast", "fast", "mixed", "mixed", "slow"}
-	shape := r.Intn(6)
+	shape := r.Intn(7)
+	if shape == 6 {
+		// destroy during renewals: every task fetches tickets at the start, comes back when they have
+		// just expired (the KDC still renews them) and asks again - renewals of cached tickets - while
+		// one task destroys the client within the same few milliseconds
+		tp.PreLogin, tp.GraceS = true, 300
+		tp.LifeS = int64(r.PickInt(30, 60))
+		if tp.RenewS == 0 {
+			tp.RenewS = 3600
+		}
+		if nt < 3 {
+			nt = r.PickInt(3, 4, 6)
+		}
+	}
 	if shape == 5 {
 		// login storm: nobody has logged in yet, every task starts with a request at the same moment
 		// (each finds no session and logs in), and after every ticket life they all come back together
@@ -103,10 +116,24 @@ func Gen(caseID, tier string) (json.RawMessage, error) {
 		}
 		pool = 5
 	}
+	back6 := tp.LifeS*1_000_000_000 + int64(r.Range(1, 20))*100_000_000 // shape 6: 0.1-2 s after the end of the first tickets
 	for i := 1; i <= nt; i++ {
 		t := TaskT{ID: i, Sched: simrt.Sched{Seed: r.U64(), Mode: modes[r.Intn(len(modes))]}}
-		if shape == 4 && r.Chance(1, 2) {
+		if (shape == 4 || shape == 6) && r.Chance(1, 2) {
 			t.Sched.Mode = "stall"
+		}
+		if shape == 6 {
+			back := back6 + int64(r.Range(0, 3000))*1000 // all within 3 ms of each other
+			sp := spns[r.Intn(3)]
+			t.Ops = []Op{{Op: "tgs", SPN: sp, ThinkNs: int64(r.Range(0, 3000))}, {Op: "tgs", SPN: sp, ThinkNs: back + int64(r.Range(0, 3000))}}
+			if i == nt {
+				// the destroyer: comes back with the others, a few milliseconds later
+				t.Ops = []Op{{Op: "tgs", SPN: sp, ThinkNs: int64(r.Range(0, 3000))}, {Op: "destroy", ThinkNs: back + int64(r.Range(0, 6000))*1000}}
+			} else if r.Chance(1, 2) {
+				t.Ops = append(t.Ops, Op{Op: "tgs", SPN: spns[r.Intn(3)], ThinkNs: int64(r.Range(0, 5000)) * 1000})
+			}
+			tp.Tasks = append(tp.Tasks, t)
+			continue
 		}
 		nops := r.Range(1, 8)
 		if shape == 4 {
